@@ -121,4 +121,4 @@ theorem canon_of_sorted : ∀ (fuel d : Nat) (S : List (Key × VH)) (p : List Bo
           rw [take_succ_of_getD kv.1 d (by have := hlen kv hm.1; omega), hp kv hm.1, hm.2]
 
 end Nomt
-#print axioms Nomt.canon_of_sorted
+
